@@ -363,6 +363,16 @@ def check_inert_fields(ctx, rule, prog, fields):
                 for node in walk_no_nested(f2):
                     if isinstance(node, ast.Name) and node.id == name and m2 is mod:
                         readers.setdefault((m2.name, q2), []).append((m2, node))
+    # ... and format templates written (or propagated by the loader) inside a function
+    for m2, q2, f2 in prog.all_funcs():
+        for node in walk_no_nested(f2):
+            if isinstance(node, ast.Constant) and isinstance(node.value, str) and '{' in node.value:
+                try:
+                    ffields = format_fields(node.value)
+                except ValueError:
+                    continue
+                if any(f.split('.')[-1] in fields and '.' in f for f, _s, _c in ffields):
+                    readers.setdefault((m2.name, q2), []).append((m2, node))
     for (mname, qual), sites in sorted(readers.items()):
         ok = (mname, qual) in TEXT_ONLY_FUNCS
         ctx.ob(rule, 'inert-field-reader:%s.%s' % (mname, qual), ok,
